@@ -402,9 +402,78 @@ pub fn run_check(replay: Option<Value>) -> i32 {
             Some(out)
         });
     }
+    // the same sweep on a nonlinear problem with a fast transition (Van der Pol, mu = 5; y' = y^2 towards its pole)
+    // at loose tolerances, where the closing attempt of the implicit solvers does fail now and then (diverging or
+    // slow Newton iteration) and is retried with a shorter step: Success only at xend
+    {
+        let nx = if thorough { 480 } else { 120 };
+        let ndims = vec![
+            dim("method", &M6.iter().map(|m| mname(*m)).collect::<Vec<_>>()),
+            dim("problem", &["vanderpol(5), xend in [4.0, 5.4)", "vanderpol(10), xend in [8.0, 9.4)", "y'=y^2 from 1, xend in [0.5, 0.98)"]),
+            dim("k", &(0..nx).collect::<Vec<_>>()),
+            dim("rtol", &[1e-1, 1e-2]),
+            dim("jacobian", &["user", "finite-difference"]),
+        ];
+        lattice(&mut rep, "sweepnl", &ndims, only.as_deref(), |key, idx| {
+            let m = M6[idx[0]];
+            if idx[4] == 1 && !crate::run::is_implicit(m) {
+                return None;
+            }
+            let th = idx[2] as f64 / nx as f64;
+            let (p, xend) = match idx[1] {
+                0 | 1 => {
+                    let mu = if idx[1] == 0 { 5.0 } else { 10.0 };
+                    (
+                        Prob {
+                            name: format!("vanderpol({})", mu),
+                            n: 2,
+                            f: Arc::new(move |_t, y, d| {
+                                d[0] = y[1];
+                                d[1] = mu * (1.0 - y[0] * y[0]) * y[1] - y[0];
+                            }),
+                            jac: Some(Arc::new(move |_t, y| vec![0.0, 1.0, -2.0 * mu * y[0] * y[1] - 1.0, mu * (1.0 - y[0] * y[0])])),
+                            flow: None,
+                            y0: vec![2.0, 0.0],
+                            linear_homogeneous: false,
+                        },
+                        if idx[1] == 0 { 4.0 + 1.4 * th } else { 8.0 + 1.4 * th },
+                    )
+                }
+                _ => (
+                    Prob { name: "y'=y^2".into(), n: 1, f: Arc::new(|_t, y, d| d[0] = y[0] * y[0]), jac: Some(Arc::new(|_t, y| vec![2.0 * y[0]])), flow: None, y0: vec![1.0], linear_homogeneous: false },
+                    0.5 + 0.48 * th,
+                ),
+            };
+            let rt = [1e-1, 1e-2][idx[3]];
+            let mut c = Cfg::new(m, 0.0, xend, &p.y0).tol(rt, rt * 1e-3);
+            c.user_jac = idx[4] == 0;
+            c.budget = 3_000_000;
+            let r = run(&p, &c);
+            let mut out = CaseOut::default();
+            let mut vs = vec![];
+            let mut tags = vec![];
+            monitor(&c, &r, p.n, false, &mut vs, &mut tags);
+            let desc = json!({"key": key, "point": describe(&ndims, idx), "cfg": c.json(&p.name), "outcome": r.outcome_name(),
+                "t_tail": r.sol().map(|s| s.t.iter().rev().take(4).rev().copied().collect::<Vec<_>>())});
+            for (k, msg) in vs {
+                out.violations.push(Violation::new(key, &k, msg, desc.clone()).with("method", mname(m)).with("span", "sweepnl").with("first_step", "None").with("t_eval", false).with("events", "None").with("status", r.outcome_name()));
+            }
+            if r.sol().map(|s| s.nrejct > 0).unwrap_or(false) {
+                out.tag("xend-sweep-nonlinear-with-rejections");
+            }
+            out.tag("xend-sweep-nonlinear");
+            out.events = r.st.n_ode;
+            out.validated = 1;
+            let mut h = r.st.fp;
+            h.s(key);
+            out.fp = Some(h.as_u128());
+            out.sample = Some(desc);
+            Some(out)
+        });
+    }
     if only.is_none() {
         rep.violations.extend(regress::violations_for("C03"));
-        for t in ["success", "terminal-stop", "inf-span", "tiny-span", "first-step-covers-span", "max-step-divides-span", "rk4-sign-rule", "xend-sweep"] {
+        for t in ["success", "terminal-stop", "inf-span", "tiny-span", "first-step-covers-span", "max-step-divides-span", "rk4-sign-rule", "xend-sweep", "xend-sweep-nonlinear", "xend-sweep-nonlinear-with-rejections"] {
             rep.require(t, 10);
         }
     } else {
